@@ -39,6 +39,9 @@ CHECKS = {
  "C13": dict(level="model_checking", technique="explicit-state BFS over event histories of a real routing.Core per routing algorithm with the successful-transmission relation in the state; safety invariant on every send",
    text="Per algorithm (epidemic, prophet, spray, binary_spray, dtlsr incl. broadcast bundles, sensor-mule): BFS over histories of receptions with each relay as previous node (incl. duplicate receptions), local submissions, relays up/down, send outcome switches, retry ticks and restarts, from the initial state and from roots with relays connected (one failing; prophet: with summary vectors). Every send is judged: never to the bundle's previous node, never to a peer that already received it successfully while the node remembers it (restart carve-out for the in-memory spray variants); under epidemic a retry offers the bundle again to every connected peer that lacks it (a failed peer is eligible again).",
    note="Trusted: as C05. Sends to the bundle's destination node are direct delivery, not an algorithm choice, and are not judged here.", design="3/C13"),
+ "C14": dict(level="model_checking", technique="explicit-state BFS over submission histories of a real routing.Core under a frozen virtual clock; bijection invariant between bundles and IDs in store and on the wire",
+   text="With the virtual clock frozen every creation timestamp coincides: five application bundles with identical source and time (two clock-less, one with a preset sequence number) are submitted through SendBundle and through the agent path, and two received bundles make the node originate status reports in the same millisecond. BFS over submissions, receptions, peers, send outcomes, retry ticks and restart from three roots. In every state: bundle <-> ID on the wire is a bijection, every untransmitted submission has its own store record filed under the ID the stored bundle carries, and every (re)transmission uses that ID.",
+   note="Trusted: as C05. A restart is modelled as taking one second of virtual time (clock-less bundles still collide across it: found and fixed).", design="3/C14"),
 }
 NA_REASON = "check not built yet in this round (planned in DESIGN.md section 3)"
 
